@@ -74,3 +74,4 @@ def run(ctx):
     from . import lib_kind5
     lib_kind5.peer_state(ctx, ctx.program())
     lib_kind5.memset_args(ctx, ctx.program())
+    lib_kind5.utf8_size(ctx, ctx.program())
